@@ -13,6 +13,9 @@ def run(chk):
     common.mc(chk, properties=['PutIndependence'])
     common.gen_tt(chk, 'put2', 'Init_PutList', 'Next_Put2', 4, None, thorough_seeds=3)
     common.gen_tt(chk, 'put3', 'Init_PutList', 'Next_Put3', 4, 1200, thorough_seeds=2)
+    # names that are not valid UTF-8, with and without -v: a diagnostic (or a -v line) about one argument must not stop the rest
+    common.gen_tt(chk, 'undecodable', 'Init_PutList', 'Next_Put2', 4, 500,
+                  opts_fn=lambda g, seed: {'conc': {'nonutf8': True}})
 
 
 def replay(path):
